@@ -78,6 +78,10 @@ func (o *ExpressionOptimizer) tryReorderBinaryOp(e *BinaryOpExpr) {
 			switch rexpr := leftOpExpr.Right.(type) {
 			case *StringExpr, *NumberExpr, *FloatExpr:
 				// (ANY op VALUE) op VALUE
+				if intPairOverflows(e.Op, leftOpExpr.Right, e.Right) {
+					// the two constants cannot be combined as integers: keep the chain as written
+					return
+				}
 				e.Left = leftOpExpr.Left
 				e.Right = &BinaryOpExpr{Pos: e.GetPos(), Op: e.Op, Left: leftOpExpr.Right, Right: e.Right}
 			case *BinaryOpExpr:
@@ -90,6 +94,32 @@ func (o *ExpressionOptimizer) tryReorderBinaryOp(e *BinaryOpExpr) {
 		// fmt.Println("DEBUG:", e)
 	}
 	return
+}
+
+// intPairOverflows reports whether both operands are integer literals whose
+// sum / product does not fit into an int64
+func intPairOverflows(op Operator, l, r Expression) bool {
+	ln, lok := l.(*NumberExpr)
+	rn, rok := r.(*NumberExpr)
+	if !lok || !rok {
+		return false
+	}
+	a, b := ln.Int, rn.Int
+	switch op {
+	case Add:
+		s := a + b
+		return (a > 0 && b > 0 && s < 0) || (a < 0 && b < 0 && s >= 0)
+	case Mul:
+		if a == 0 || b == 0 {
+			return false
+		}
+		const minInt64 = -1 << 63
+		if (a == -1 && b == minInt64) || (b == -1 && a == minInt64) {
+			return true
+		}
+		return (a*b)/b != a
+	}
+	return false
 }
 
 func isBinaryOpExprAllValue(expr *BinaryOpExpr, op Operator) bool {
